@@ -400,8 +400,9 @@ Fixpoint wneed (n : nat) (o : wopts) (e : env) (s : schema) (v : pyval) {struct 
     - a value under an UNNAMED branch comes back from the reader as a plain, normalised value: it must re-resolve to the
       same branch under the writer's search (this is the exclusion the harness applies: bytearray written as "bytes" and
       read back as bytes fits an earlier fixed; primitive ambiguities);
-    - "float" leaves survive the trip single -> double -> single; an enum index is the first occurrence of its symbol;
-      map keys and record field names are distinct. *)
+    - an enum index is the first occurrence of its symbol; map keys and record field names are distinct.
+    ("float" leaves must survive single -> double -> single: [floats_stable], a separate condition that holds of every
+    written value.) *)
 (* reader options: return_named_type=True *)
 Definition ro_named : ropts := {| ret_rec := false; ret_rec_override := false; ret_named := true; ret_named_override := false |}.
 Definition named_b (e : env) (b : schema) : bool :=
@@ -415,12 +416,22 @@ Fixpoint forall2b {A B} (p : A -> B -> bool) (l : list A) (r : list B) : bool :=
   | _, _ => false
   end.
 
+(* every binary32 leaf survives unpack("<f") then pack("<f"): true of everything pack("<f") produces (proofs/FloatStable.v),
+   hence of every value the writer wrote (proofs/ElabFloats.v) *)
+Fixpoint floats_stable (a : aval) : bool :=
+  match a with
+  | AFloat b => match d2s (s2d b) with Ok y => y =? b | _ => false end
+  | AArray l | ARecord l => forallb floats_stable l
+  | AMap l => forallb (fun kv => floats_stable (snd kv)) l
+  | AUnion _ a' => floats_stable a'
+  | _ => true
+  end.
+
 Fixpoint closb (n : nat) (o : wopts) (e : env) (s : schema) (a : aval) {struct n} : bool :=
   match n with
   | O => false
   | S n =>
     match s, a with
-    | SFloat, AFloat x => match d2s (s2d x) with Ok y => y =? x | _ => false end
     | SEnum _ _ syms _, AEnum i => match nthZ syms i with Some x => optZ_eqb (index_of syms x 0) i | None => false end
     | SArray it, AArray l => forallb (closb n o e it) l
     | SMap vs, AMap l => nodup_str (map fst l) && forallb (fun kx => closb n o e vs (snd kx)) l
@@ -495,7 +506,7 @@ Definition run_c09 (wo : wopts) (ro : ropts) (e : env) (s : schema) (v : pyval) 
                                  | WOk bs => if bytes_eqb bs (wire a) then "same" else "diff:" ++ tohex bs
                                  | WErr => "E" | WUnspec => "U" | WFuel => "FUEL" end
                     | None => "?" end)
-      ++ ";CB:" ++ (if closb FUEL2 wo e s a then "1" else "0")
+      ++ ";CB:" ++ (if closb FUEL2 wo e s a then "1" else "0") ++ (if floats_stable a then "" else "FSBAD")
   | WErr => "E" | WUnspec => "U" | WFuel => "FUEL"
   end.
 
